@@ -66,7 +66,7 @@ struct SimFile {
     }
     if (size > 1) n -= n % size;
     if (n) memcpy(ptr, bytes->data() + pos, n);
-    pos += (int64_t)n; errno = 0;
+    pos += (int64_t)n;   // errno is left alone, as fread and memory readers leave it: a plain end of data is "0 bytes, errno untouched"
     { static const bool trace = getenv("VERIF_TRACE_IO") != nullptr; if (trace) fprintf(stderr, "IO read want=%zu got=%zu -> pos %lld\n", want, n, (long long)pos); }
     log.u64(1); log.u64(n); log.i64(pos);
     return size ? n / size : 0;
